@@ -1,5 +1,11 @@
-(* C19 — a rejected write leaves no trace in the output.  Statements only. *)
-From Ebml Require Import Base Tools Spec Writer Proofs.Tactics Proofs.SpecProofs Proofs.WriterProofs.
+(* C19 — a rejected write leaves no trace in the output.  Statements only.
+   FULL for every call of the writer: write(), write_advanced(), write_unknown_size(), write_raw(), flush() and into_inner().  A call
+   that returns an error other than an I/O error leaves the whole writer state unchanged, and the rest of the run is what it
+   would have been without the call (C19_insert_rejected).  For flush()/into_inner() this holds since the repair D26 (/repo commit
+   "a failing flush() leaves the writer as it was"): before it, a flush that failed to close an outer master left the inner ones
+   closed; the model's [flush] follows the repaired code.  Only an I/O error of the destination can leave a trace (bytes of the
+   working buffer are lost: C10_flush_failure, C10_private_flush_bytes). *)
+From Ebml Require Import Base Tools Spec Writer Proofs.Tactics Proofs.SpecProofs Proofs.WriterProofs Proofs.AuditWriter.
 
 (* write()/write_advanced()/write_unknown_size(): if the call returns an error other than an I/O error, the whole writer
    state (open masters, working buffer, delivered bytes, destination) is exactly what it was before the call — for every
@@ -21,10 +27,38 @@ Theorem C19_raw : forall st id data st' e,
   N.of_nat (length data) < 2 ^ 56 - 1 -> wstep [] st (OpRaw id data) = (st', WErr e) -> exists x, e = EIo x.
 Proof. exact write_raw_no_reject. Qed.
 
+(* flush() and into_inner(): if the call returns an error other than an I/O error (the only one there is: a master whose content does
+   not fit the size width it was started with, ESize), the whole writer state is exactly what it was before the call *)
+Theorem C19_flush_atomic : forall sp st op st' e, (op = OpFlush \/ op = OpIntoInner) ->
+  wstep sp st op = (st', WErr e) -> (forall x, e <> EIo x) -> st' = st.
+Proof. intros sp st op st' e [-> | ->]; exact (flush_atomic st st' e). Qed.
+
+(* handing the working buffer to the destination (private_flush, the last step of every successful call) fails only with an I/O error *)
+Theorem C19_private_flush_io_only : forall st st' e, private_flush st = (st', WErr e) -> exists x, e = EIo x.
+Proof. exact private_flush_err. Qed.
+
+(* every call: a call of any kind (for write_raw: with a payload shorter than 2^56-1 bytes, [raw_exists]) that returns an error other than
+   an I/O error leaves the whole writer state unchanged *)
+Theorem C19_atomic_any : forall sp st op st' e, raw_exists op -> wstep sp st op = (st', WErr e) -> (forall x, e <> EIo x) -> st' = st.
+Proof. exact wstep_atomic. Qed.
+
 (* consequently the rest of the run — results, byte counts and final output — is what it would have been without the call *)
 Theorem C19_erase : forall sp st op ops e, wstep sp st op = (st, WErr e) ->
   wrun sp st (op :: ops) = (fst (wrun sp st ops), (WErr e, length (w_dest st)) :: snd (wrun sp st ops)).
 Proof. exact wrun_skip. Qed.
+
+(* run level: let the calls ops1, made from the state st0, reach the state st1 with results rs1 without a panic, and let the call op
+   (of any kind; a write_raw payload shorter than 2^56-1 bytes) made in st1 be rejected with an error e that is not an I/O error.  Then
+   op leaves st1 unchanged, and the run ops1, op, ops2 ends in the same final state (open masters, working buffer, delivered bytes,
+   destination script) as the run ops1, ops2, with the same result and the same delivered-byte count for every call of ops1 and of
+   ops2; the only difference is the entry (WErr e, bytes delivered so far) for op itself *)
+Theorem C19_insert_rejected : forall sp st0 ops1 op ops2 st1 rs1 st1' e,
+  wrun sp st0 ops1 = (st1, rs1) -> Forall (fun r => fst r <> WPanic) rs1 -> raw_exists op ->
+  wstep sp st1 op = (st1', WErr e) -> (forall x, e <> EIo x) ->
+  st1' = st1 /\
+  wrun sp st0 (ops1 ++ ops2) = (fst (wrun sp st1 ops2), rs1 ++ snd (wrun sp st1 ops2)) /\
+  wrun sp st0 (ops1 ++ op :: ops2) = (fst (wrun sp st1 ops2), rs1 ++ (WErr e, length (w_dest st1)) :: snd (wrun sp st1 ops2)).
+Proof. exact wrun_insert_rejected. Qed.
 
 (* the invariant behind it: buffering a tag only appends to the working buffer, only pushes masters above the ones that were
    open, and back-patches sizes only inside the appended part *)
@@ -55,3 +89,16 @@ Example C19_ex_rejections :
   (* size not representable in the requested width: 130 bytes with a 1-byte size field *)
   snd (wstep ex_sp (fst (wstep ex_sp ex_st (OpWrite (TStart 16643) o_default))) (OpWrite (TElem 16642 (VB (repeat 0 130))) {| o_len := Some 1%nat; o_unknown := false |})) = WErr ESize.
 Proof. vm_compute. repeat split; reflexivity. Qed.
+
+(* the auditor's scenario for flush(): Root started with a 1-byte size field, Parent (default), a 130-byte binary element; flush() /
+   into_inner() close Parent, then fail to close Root (138 bytes do not fit one byte): the call returns the size error and the state
+   (open masters [Parent; Root], 134 buffered bytes, nothing delivered) is exactly what it was, so the next write succeeds as it
+   would have without the flush and both runs end in the same state *)
+Example C19_ex_flush_rejected :
+  let st := fst (wrun aw_sp (w_init []) aw_pre) in
+  wstep aw_sp st OpFlush = (st, WErr ESize) /\ wstep aw_sp st OpIntoInner = (st, WErr ESize) /\
+  open_ids (w_open st) = [16643; 129] /\ length (w_buf st) = 134%nat /\
+  map fst (snd (wrun aw_sp (w_init []) (aw_pre ++ [aw_later]))) = [WOk; WOk; WOk; WOk] /\
+  map fst (snd (wrun aw_sp (w_init []) (aw_pre ++ [OpFlush; aw_later]))) = [WOk; WOk; WOk; WErr ESize; WOk] /\
+  fst (wrun aw_sp (w_init []) (aw_pre ++ [OpFlush; aw_later])) = fst (wrun aw_sp (w_init []) (aw_pre ++ [aw_later])).
+Proof. exact flush_rejected_example. Qed.
